@@ -352,6 +352,7 @@ def generate(api):
     except OSError:
         pass
     gen_loops(api, rs, U, gs)
+    gen_kernels(api, rs, U, gs)
 
 
 def zexpr(rs, U, text, env):
@@ -376,6 +377,19 @@ def zexpr(rs, U, text, env):
             return "(Z.%s %s %s)" % (e[1][-1], go(e[2][0]), go(e[2][1]))
         if k == 'mcall' and e[2] in ('min', 'max') and len(e[3]) == 1:
             return "(Z.%s %s %s)" % (e[2], go(e[1]), go(e[3][0]))
+        if k == 'bin' and e[1] in ('%', '/'):
+            return "(%s %s %s)" % ({'%': 'Z.rem', '/': 'Z.quot'}[e[1]], go(e[2]), go(e[3]))
+        if k == 'bin' and e[1] in ('==', '&&', '||'):
+            return "(%s %s %s)" % ({'==': 'Z.eqb', '&&': 'andb', '||': 'orb'}[e[1]], go(e[2]), go(e[3]))
+        if k == 'path' and '::'.join(e[1]) in env:
+            return env['::'.join(e[1])]
+        if k == 'field' and e[1][0] == 'var' and "%s.%s" % (e[1][1], e[2]) in env:
+            return env["%s.%s" % (e[1][1], e[2])]
+        if k == 'mcall' and e[1][0] == 'var' and not e[3] and "%s.%s()" % (e[1][1], e[2]) in env:
+            return env["%s.%s()" % (e[1][1], e[2])]
+        if k == 'cast' and e[2] == 'usize' and e[1][0] == 'mcall' and e[1][2] in ('floor', 'round', 'ceil') and 'FLOAT' in env:
+            # float -> usize: saturating, NaN -> 0; the float argument is translated by env['FLOAT']
+            return "(as_usize (f32_%s %s))" % (e[1][2], env['FLOAT'](e[1][1]))
         if k == 'cast':
             return go(e[1])
         if k == 'paren':
@@ -531,3 +545,217 @@ def gen_loops(api, rs, U, gs):
     except (U, OSError, ValueError, IndexError) as ex:
         api.broken('leaf', 'turbulence_octaves', PROPS, ex)
     api.write_gen('LeafLoops.v', "\n".join(out) + "\n")
+
+
+def gen_kernels(api, rs, U, gs):
+    """Gen/LeafKernels.v (second pass): index expressions of the lighting, displacement map and component transfer kernels, the
+    integer part of box_blur::create_box_gauss, the (min, max) arguments of every filter::f32_bound call."""
+    out = [api.HEADER, "From Coq Require Import String List.\nFrom RV Require Import Model.Base Model.RenderPrims.\nImport ListNotations.\n"
+           "Local Open Scope Z_scope.\n",
+           "(* `f as usize` for an integral float value: saturating (NaN -> 0) *)\nDefinition as_usize (z : Z) : Z := Z.max 0 (Z.min 18446744073709551615 z).\n"]
+    # ---- lighting ------------------------------------------------------------------------------------------------
+    LREL = ROOT + '/filter/lighting.rs'
+    try:
+        src = gs.blank_comments(api.rd(LREL))
+        sq = squeeze(src)
+        m = re.search(r"fn apply\( light_source: LightSource,.*?\) \{ if ([^{]+?) \{ return; \} let width = src\.width; let height = src\.height;", sq)
+        if not m:
+            raise U("lighting::apply: `if <too small> { return; } let width = src.width; let height = src.height;` not found at the top")
+        envg = {'src.width': 'w', 'src.height': 'h'}
+        out.append("(* %s :: apply: if %s { return; } *)\nDefinition light_guard (w h : Z) : bool := %s.\n" % (LREL, m.group(1), zexpr(rs, U, m.group(1), envg)))
+        # the normal functions: every alpha_at(ax, ay)
+        env = {'img.width': 'w', 'img.height': 'h', 'x': 'x', 'y': 'y'}
+        fns = {}
+        for fm in re.finditer(r"fn (\w+_normal)\(img: ImageRef((?:, [xy]: u32)*)\) -> Normal \{", sq):
+            b0 = sq.index('{', fm.start())
+            body = sq[b0:balanced(sq, b0)]
+            samples = []
+            for am in re.finditer(r"img\.alpha_at\(", body):
+                p = am.end() - 1
+                args = body[p + 1:balanced(body, p) - 1]
+                parts = [a.strip() for a in args.split(',')]
+                if len(parts) != 2:
+                    raise U("alpha_at with %d arguments in %s" % (len(parts), fm.group(1)))
+                samples.append("(%s, %s)" % (zexpr(rs, U, parts[0], env), zexpr(rs, U, parts[1], env)))
+            if len(re.findall(r"alpha_at", body)) != len(samples) or re.search(r"\bdata\b|\[", body):
+                raise U("%s reads the image in another way than img.alpha_at(..)" % fm.group(1))
+            fns[fm.group(1)] = samples
+            out.append("Definition ls_%s (w h x y : Z) : list (Z * Z) := [%s]%%list." % (fm.group(1), "; ".join(samples)))
+        if len(re.findall(r"alpha_at\(", sq)) != sum(len(v) for v in fns.values()) + 2:
+            raise U("lighting.rs: alpha_at is used outside the *_normal functions and the two light-vector sites of apply")
+        # the schedule of apply
+        a0 = sq.index("calc(0, 0, top_left_normal(src));")
+        tail = sq[a0:]
+        tail = tail[:tail.index("fn light_color")]
+        norm = re.sub(r"\s+", " ", tail).strip()
+        calls = []
+        loops = re.findall(r"for (\w) in ([^{]+?) \{", norm)
+        if [l for l in loops] != [('x', '1..width - 1'), ('y', '1..height - 1'), ('y', '1..height - 1'), ('x', '1..width - 1')]:
+            raise U("lighting::apply: loops are not `for x in 1..width - 1`, `for y in 1..height - 1`, `for y .. { for x .. }`: %r" % (loops,))
+        # walk the text keeping track of the open loops
+        pos = 0
+        stack = []
+        tok = re.compile(r"for (\w) in [^{]+? \{|\}|calc\(([^;]*?), (\w+_normal)\(src((?:, [xy])*)\)\);")
+        for tm in tok.finditer(norm):
+            t = tm.group(0)
+            if t.startswith('for'):
+                stack.append(tm.group(1))
+            elif t == '}':
+                if stack:
+                    stack.pop()
+            else:
+                pa = [a.strip() for a in tm.group(2).split(',')]
+                if len(pa) != 2 or tm.group(3) not in fns:
+                    raise U("lighting::apply: unexpected calc call %s" % t)
+                fargs = [a.strip() for a in tm.group(4).split(',') if a.strip()]
+                if sorted(fargs) != sorted(stack):
+                    raise U("lighting::apply: %s is handed %r inside loops %r" % (tm.group(3), fargs, stack))
+                envc = {'width': 'w', 'height': 'h', 'x': 'x', 'y': 'y'}
+                calls.append("(%s%%string, ((%s, %s), (%s, %s)), ls_%s w h x y)" % (gs.coq_str(tm.group(3)), 'true' if 'x' in stack else 'false',
+                                                                           'true' if 'y' in stack else 'false', zexpr(rs, U, pa[0], envc),
+                                                                           zexpr(rs, U, pa[1], envc), tm.group(3)))
+        if len(calls) != 9 or len(re.findall(r"\bcalc\(", norm)) != 9:
+            raise U("lighting::apply: expected 9 calc(..) calls (4 corners, 2 + 2 edges, interior), found %d" % len(calls))
+        if not re.search(r"let nz = src\.alpha_at\(nx, ny\)", sq) or not re.search(r"\*dest\.pixel_at_mut\(nx, ny\) =", sq):
+            raise U("lighting::apply: calc does not read / write at (nx, ny)")
+        out.append("(* lighting::apply: every calc(nx, ny, <normal>(src, ..)) - name, (inside the x loop, inside the y loop), (nx, ny), the pixels the normal reads;\n"
+                   "   loops are `for x in 1..width - 1`, `for y in 1..height - 1` *)\n"
+                   "Definition light_calls (w h x y : Z) : list (string * ((bool * bool) * (Z * Z)) * list (Z * Z)) := [\n  %s\n]%%list.\n" % ";\n  ".join(calls))
+        api.ok('leaves', 'lighting_indices', props=PROPS, rel=LREL)
+    except (U, OSError, ValueError, IndexError) as ex:
+        api.broken('leaf', 'lighting_indices', PROPS, ex)
+
+    # ---- displacement map ----------------------------------------------------------------------------------------
+    DREL = ROOT + '/filter/displacement_map.rs'
+    try:
+        sq = squeeze(gs.blank_comments(api.rd(DREL)))
+        for v, p in (('ox', 'x'), ('oy', 'y')):
+            if not re.search(r"let %s = \(%s as f32 \+ d%s \* s%s \* fe\.scale\(\)\)\.round\(\) as i32;" % (v, p, p, p), sq):
+                raise U("`let %s = (%s as f32 + d%s * s%s * fe.scale()).round() as i32;` not found" % (v, p, p, p))
+        if not re.search(r"let w = src\.width as i32; let h = src\.height as i32;", sq):
+            raise U("`let w = src.width as i32; let h = src.height as i32;` not found")
+        m = re.search(r"if ([^{]+?) \{ let idx = \(([^;]+)\) as usize; let idx1 = \(([^;]+)\) as usize; dest\.data\[idx1\] = src\.data\[idx\]; \}", sq)
+        if not m:
+            raise U("the guarded copy `if <guard> { let idx = (..) as usize; let idx1 = (..) as usize; dest.data[idx1] = src.data[idx]; }` not found")
+        if len(re.findall(r"\.data\[", sq)) != 2:
+            raise U("displacement_map indexes image data outside the guarded copy")
+        env = {k: k for k in ('w', 'h', 'x', 'y', 'ox', 'oy')}
+        out.append("(* %s: if %s { idx = %s; idx1 = %s; dest.data[idx1] = src.data[idx] }   (ox, oy = `(..).round() as i32`: any i32) *)\n"
+                   "Definition dm_guard (w h x y ox oy : Z) : bool := %s.\nDefinition dm_idx (w h x y ox oy : Z) : Z := %s.\n"
+                   "Definition dm_idx1 (w h x y ox oy : Z) : Z := %s.\n"
+                   % (DREL, m.group(1), m.group(2), m.group(3), zexpr(rs, U, m.group(1), env), zexpr(rs, U, m.group(2), env), zexpr(rs, U, m.group(3), env)))
+        mm = re.match(r"^(\w+) \* (\w+) \+ (\w+)$", m.group(2).strip())
+        if not mm:
+            raise U("idx is not of the form a * b + c: %s" % m.group(2))
+        out.append("Definition dm_idx_steps (w h x y ox oy : Z) : list Z := [%s; %s]%%list.\n"
+                   % (zexpr(rs, U, "%s * %s" % (mm.group(1), mm.group(2)), env), zexpr(rs, U, m.group(2), env)))
+        api.ok('leaves', 'displacement_indices', props=PROPS, rel=DREL)
+    except (U, OSError, ValueError, IndexError) as ex:
+        api.broken('leaf', 'displacement_indices', PROPS, ex)
+
+    # ---- component transfer --------------------------------------------------------------------------------------
+    TREL = ROOT + '/filter/component_transfer.rs'
+    try:
+        sq = squeeze(gs.blank_comments(api.rd(TREL)))
+        for ch in 'rgba':
+            if not re.search(r"if !is_dummy\(fe\.func_%s\(\)\) \{ pixel\.%s = transfer\(fe\.func_%s\(\), pixel\.%s\); \}" % (ch, ch, ch, ch), sq):
+                raise U("apply: channel %s is not `if !is_dummy(..) { pixel.%s = transfer(..) }`" % (ch, ch))
+        if len(re.findall(r"\btransfer\(", sq)) != 5:
+            raise U("transfer( is called from somewhere else than the four guarded channel sites")
+        if not re.search(r"TransferFunction::Table\(values\) => values\.is_empty\(\), TransferFunction::Discrete\(values\) => values\.is_empty\(\),", sq):
+            raise U("is_dummy does not report empty Table / Discrete value lists")
+
+        def fl(e):
+            # c * (n as f32)
+            if e[0] == 'bin' and e[1] == '*' and e[2] == ('var', 'c') and e[3][0] == 'cast' and e[3][1] == ('var', 'n') and e[3][2] == 'f32':
+                return "(Qmult c (inject_Z n))"
+            raise U("component transfer: float expression outside the subset: %r" % (e,))
+        env = {'values.len()': 'len', 'n': 'n', 'k': 'k', 'FLOAT': fl}
+        mt = re.search(r"TransferFunction::Table\(values\) => \{ let n = ([^;]+); let k = ([^;]+); let k = ([^;]+); if ([^{]+) \{ values\[([^\]]+)\] \} else \{ "
+                       r"let vk = values\[([^\]]+)\]; let vk1 = values\[([^\]]+)\];", sq)
+        if not mt:
+            raise U("the Table arm of transfer is not in its known form")
+        n_, k1, k2, cond, i0, i1, i2 = [zexpr(rs, U, mt.group(i), env) for i in range(1, 8)]
+        md = re.search(r"TransferFunction::Discrete\(values\) => \{ let n = ([^;]+); let k = ([^;]+); values\[([^\]]+)\] \}", sq)
+        if not md:
+            raise U("the Discrete arm of transfer is not in its known form")
+        dn, dk, di = [zexpr(rs, U, md.group(i), env) for i in range(1, 4)]
+        if len(re.findall(r"values\[", sq)) != 4:
+            raise U("component_transfer indexes `values` in more places than the four known ones")
+        out.append("(* %s :: transfer, Table arm: n = %s; k = %s; k = %s; if %s { values[%s] } else { values[%s], values[%s] } *)\n"
+                   "Definition ct_table_indices (len : Z) (c : Q) : list Z :=\n  let n := %s in let k := %s in let k := %s in if %s then [%s]%%list else [%s; %s]%%list.\n"
+                   "Definition ct_table_usize_steps (len : Z) : list Z := [%s]%%list.\n"
+                   % (TREL, mt.group(1), mt.group(2), mt.group(3), mt.group(4), mt.group(5), mt.group(6), mt.group(7), n_, k1, k2, cond, i0, i1, i2, n_))
+        out.append("(* Discrete arm: n = %s; k = %s; values[%s] *)\n"
+                   "Definition ct_discrete_indices (len : Z) (c : Q) : list Z :=\n  let n := %s in let k := %s in [%s]%%list.\n"
+                   "Definition ct_discrete_usize_steps (len : Z) : list Z := let n := %s in [Z.sub n 1]%%list.\n"
+                   % (md.group(1), md.group(2), md.group(3), dn, dk, di, dn))
+        api.ok('leaves', 'component_transfer_indices', props=PROPS, rel=TREL)
+    except (U, OSError, ValueError, IndexError) as ex:
+        api.broken('leaf', 'component_transfer_indices', PROPS, ex)
+
+    # ---- create_box_gauss ----------------------------------------------------------------------------------------
+    BREL = ROOT + '/filter/box_blur.rs'
+    try:
+        sq = squeeze(gs.blank_comments(api.rd(BREL)))
+        if not re.search(r"fn create_box_gauss\(sigma: f32\) -> \[i32; STEPS\] \{ if sigma > 0\.0 \{", sq) or not re.search(r"\} else \{ \[1; STEPS\] \}", sq):
+            raise U("create_box_gauss: `if sigma > 0.0 { .. } else { [1; STEPS] }` not found")
+        if not re.search(r"let w_ideal = \(12\.0 \* sigma \* sigma / n_float\)\.sqrt\(\) \+ 1\.0;", sq):
+            raise U("create_box_gauss: w_ideal is not `(..).sqrt() + 1.0` (>= 1 for every sigma > 0)")
+        m = re.search(r"let mut wl = ([^;]+); if ([^{]+) \{ wl -= (\d+); \} let wu = ([^;]+);", sq)
+        if not m:
+            raise U("create_box_gauss: `let mut wl = ..; if .. { wl -= 1; } let wu = ..;` not found")
+        env = {'wf': 'wf', 'wl': 'wl', 'i32::MAX': 'I32_MAX'}
+        wl0 = zexpr(rs, U, m.group(1).replace('w_ideal.floor() as i32', 'wf'), env)
+        if 'w_ideal' in m.group(1).replace('w_ideal.floor() as i32', ''):
+            raise U("wl uses w_ideal in another way than `w_ideal.floor() as i32`")
+        out.append("(* %s :: create_box_gauss, wf = `w_ideal.floor() as i32` (saturating): let mut wl = %s; if %s { wl -= %s; } let wu = %s; *)\n"
+                   "Definition bg_wl (wf : Z) : Z := let wl := %s in if %s then Z.sub wl %s else wl.\nDefinition bg_wu (wl : Z) : Z := %s.\n"
+                   % (BREL, m.group(1), m.group(2), m.group(3), m.group(4), wl0, zexpr(rs, U, m.group(2), env), m.group(3), zexpr(rs, U, m.group(4), env)))
+        if not re.search(r"if i < m \{ sizes\[i\] = wl; \} else \{ sizes\[i\] = wu; \}", sq):
+            raise U("create_box_gauss: the box sizes are not wl / wu")
+        rads = re.findall(r"let radius_(?:horz|vert) = \(([^;]+)\) as usize;", sq)
+        rads = [re.sub(r"box_size_(horz|vert)", "b", r) for r in rads]
+        if len(rads) != 2 or rads[0] != rads[1]:
+            raise U("box_blur::apply: the two radius expressions differ or are missing: %r" % rads)
+        out.append("(* box_blur::apply: let radius = (%s) as usize; *)\nDefinition bg_radius (b : Z) : Z := %s.\n" % (rads[0], zexpr(rs, U, rads[0], {'b': 'b'})))
+        api.ok('leaves', 'box_gauss', props=PROPS, rel=BREL)
+    except (U, OSError, ValueError, IndexError) as ex:
+        api.broken('leaf', 'box_gauss', PROPS, ex)
+
+    # ---- f32_bound call sites ------------------------------------------------------------------------------------
+    try:
+        calls = []
+        base = os.path.join(os.environ.get('VERIF_REPO', '/repo'), ROOT, 'filter')
+        for f in sorted(os.listdir(base)):
+            if not f.endswith('.rs'):
+                continue
+            code = gs.blank_comments(api.rd(os.path.join(ROOT, 'filter', f)))
+            tm = re.search(r"#\[cfg\(resvg_verif\)\]\s*pub\s+mod\b", code)
+            code = code[:tm.start()] if tm else code
+            for m in re.finditer(r"\bf32_bound\s*\(", code):
+                if re.search(r"\bfn\s+$", code[max(0, m.start() - 8):m.start()]):
+                    continue
+                p = m.end() - 1
+                args = code[p + 1:balanced(code, p) - 1]
+                parts, depth, cur = [], 0, ''
+                for ch in args:
+                    if ch in '([':
+                        depth += 1
+                    elif ch in ')]':
+                        depth -= 1
+                    if ch == ',' and depth == 0:
+                        parts.append(cur)
+                        cur = ''
+                    else:
+                        cur += ch
+                parts.append(cur)
+                if len(parts) != 3:
+                    raise U("f32_bound call with %d arguments in %s" % (len(parts), f))
+                calls.append((f, squeeze(parts[0]), squeeze(parts[2])))
+        out.append("(* every call of filter::f32_bound(min, val, max): file, min, max *)\nDefinition f32_bound_calls : list (string * string * string) := [\n  %s\n]%%list.\n"
+                   % ";\n  ".join("(%s, %s, %s)%%string" % (gs.coq_str(a), gs.coq_str(b), gs.coq_str(c)) for a, b, c in calls))
+        api.ok('tables', 'f32_bound_calls', props=PROPS, rel=ROOT + '/filter/*.rs', n=len(calls))
+    except (U, OSError, ValueError, IndexError) as ex:
+        api.broken('table', 'f32_bound_calls', PROPS, ex)
+    api.write_gen('LeafKernels.v', "\n".join(out) + "\n")
